@@ -1,5 +1,6 @@
-/- mpz_powm, mpz_powm_ui on the pointer-level model (Mpir/Model/AliasPowm.lean): operands read through pointers
-   fetched early, the result built in TMP space and copied to r at `ret:`, for every assignment of ids. -/
+/- mpz_powm, mpz_powm_ui (operands read through pointers fetched early, the result built in TMP space and copied to r at
+   `ret:`), mpz_addmul / mpz_submul, mpz_sqrt, mpz_lcm, mpz_invert on the pointer-level model (Mpir/Model/AliasPowm.lean),
+   for every assignment of ids. -/
 import MpirProofs.Lemmas.AliasDiv
 import MpirProofs.Lemmas.AliasGcd
 import MpirProofs.Lemmas.AliasMul
@@ -1281,66 +1282,169 @@ theorem invertMain_ok (hc : Gcd.MpnGcdextContract) {s : St} (h : Inv s) {inv x n
     obtain ⟨i6, n6, v6⟩ := tmpDone2_spec r4.1 s.nv n4
     exact ⟨_, rfl, i6, n6, fun _ i hi' => (v6 i hi').trans (v4 i hi'), fun he => absurd he hg1⟩
 
-/- NOT PROVED (model + examples only):
-   * mpz_powm with a NEGATIVE exponent.  Full statement: as `powm_ok_nonneg` without `he0`, plus
-     `Powm.mpz_powm … = .div0 → powm r b e m s = .error "div0"`.  Missing: (1) `Powm.mpz_invert b m = some nb → nb < |m|`
-     (so that `setInt new_b nb` fits the n+1 limbs of MPZ_TMP_INIT), (2) the transport of `powmCore_ok` through
-     `tmpInit_spec` / `setInt_spec` / `tmpDone_spec` (new_b is the variable `s.nv`; `mp = s.ptr m` is unchanged by those).
-   * mpz_powm_ui with el = 0 (`powmE0_ok` applies verbatim; missing: the rewriting of `mn = 1 && mp0.headD 0 = 1` to
-     `|m| = 1`) and el ≥ 20 (`powm_ok_nonneg` on the state extended by the local `e`, then `tmpDone_spec`).
-   * mpz_addmul / mpz_submul (`aorsmulV`, `aorsmul_1`): model, positive and negative examples, no theorem.
-   * mpz_sqrt, mpz_lcm, mpz_invert: not modelled. -/
+/-- **mpz_invert (inverse, x, n)** on the pointer model for EVERY assignment of ids (inverse = x, inverse = n, x = n, all
+    equal): the return value and the stored inverse are those of the value-level model `Gcd.mpz_invert` (C07 `invert_spec`:
+    non-zero iff gcd (x, n) = 1, and then 0 ≤ r < |n|, x r ≡ 1 mod n); when 0 is returned no variable changes its value. -/
+theorem mpz_invert_ok (hc : Gcd.MpnGcdextContract) {s : St} (h : Inv s) {inv x n : Nat} (hi : inv < s.nv) (hx : x < s.nv)
+    (hn : n < s.nv) :
+    match Gcd.mpz_invert (s.value x) (s.value n) with
+    | none => ∃ s', mpz_invert inv x n s = .ok (false, s') ∧ Inv s' ∧ s'.nv = s.nv ∧ ∀ i, i < s.nv → s'.value i = s.value i
+    | some z => ∃ s', mpz_invert inv x n s = .ok (true, s') ∧ Res s s' inv z := by
+  rw [Gcd.mpz_invert_eq]
+  unfold mpz_invert
+  simp only [bind, Except.bind, pure, Except.pure]
+  by_cases hx0 : (s.size x).natAbs = 0
+  · have hvx : s.value x = 0 := (h.size_eq_zero_iff hx).mp (by omega)
+    rw [if_pos hx0, if_pos (Or.inl hvx)]
+    exact ⟨s, rfl, h, rfl, fun _ _ => rfl⟩
+  · rw [if_neg hx0]
+    have hvx : s.value x ≠ 0 := fun e => hx0 (by rw [(h.size_eq_zero_iff hx).mpr e]; rfl)
+    obtain ⟨bn, hbn, hbnl, hbnL⟩ := h.live n hn
+    have hfn := h.fits n hn
+    have key : (s.value n).natAbs = 1 ↔ ((s.size n).natAbs = 1 ∧ bn.getD 0 0 = 1) := by
+      rw [value_natAbs]
+      have hlimb : (s.size n).natAbs = 1 → s.mag n = bn.getD 0 0 := fun h1 => by
+        unfold St.mag St.limbs; rw [hbn, h1]; simp only [Option.getD_some]
+        cases bn with
+        | nil => simp at hbnl; omega
+        | cons a as => simp
+      constructor
+      · intro h1
+        have hs : (s.size n).natAbs = 1 := by rw [h.size_natAbs hn, h1]; decide
+        exact ⟨hs, by rw [← hlimb hs]; exact h1⟩
+      · intro ⟨hs, hl⟩; rw [hlimb hs]; exact hl
+    have main : (match (if (Gcd.mpz_gcdext (s.value x) (s.value n)).1 ≠ 1 then none
+          else if (Gcd.mpz_gcdext (s.value x) (s.value n)).2.1 < 0 then
+            (if s.value n < 0 then some ((Gcd.mpz_gcdext (s.value x) (s.value n)).2.1 - s.value n)
+             else some ((Gcd.mpz_gcdext (s.value x) (s.value n)).2.1 + s.value n))
+          else some (Gcd.mpz_gcdext (s.value x) (s.value n)).2.1 : Option Int) with
+        | none => ∃ s', invertMain inv x n (s.size x).natAbs (s.size n).natAbs s = .ok (false, s') ∧ Inv s' ∧ s'.nv = s.nv ∧
+            ∀ i, i < s.nv → s'.value i = s.value i
+        | some z => ∃ s', invertMain inv x n (s.size x).natAbs (s.size n).natAbs s = .ok (true, s') ∧ Res s s' inv z) := by
+      obtain ⟨s', e', i', n', hne, heq⟩ := invertMain_ok hc h hi hx hn hvx
+      by_cases hg : (Gcd.mpz_gcdext (s.value x) (s.value n)).1 = 1
+      · rw [if_neg (not_not.mpr hg)]
+        have hpick : (if (Gcd.mpz_gcdext (s.value x) (s.value n)).2.1 < 0 then
+            (if s.value n < 0 then some ((Gcd.mpz_gcdext (s.value x) (s.value n)).2.1 - s.value n)
+             else some ((Gcd.mpz_gcdext (s.value x) (s.value n)).2.1 + s.value n))
+          else some (Gcd.mpz_gcdext (s.value x) (s.value n)).2.1 : Option Int) =
+            some (invertPick (Gcd.mpz_gcdext (s.value x) (s.value n)).2.1 (s.value n)) := by
+          unfold invertPick; split_ifs <;> rfl
+        rw [hpick]
+        simp only []
+        rw [decide_eq_true hg] at e'
+        exact ⟨s', e', i', n', (heq hg).1, (heq hg).2⟩
+      · rw [if_pos hg]
+        simp only []
+        rw [decide_eq_false hg] at e'
+        exact ⟨s', e', i', n', hne hg⟩
+    by_cases hn1 : (s.size n).natAbs = 1
+    · rw [if_pos hn1, limbAt_of_blk hbn (by omega)]
+      simp only []
+      by_cases hl : bn.getD 0 0 = 1
+      · rw [if_pos (show s.value x = 0 ∨ (s.value n).natAbs = 1 from Or.inr (key.mpr ⟨hn1, hl⟩)),
+          if_pos (show (s.size n).natAbs = 1 ∧ bn.getD 0 0 = 1 from ⟨hn1, hl⟩)]
+        exact ⟨s, rfl, h, rfl, fun _ _ => rfl⟩
+      · rw [if_neg (show ¬ (s.value x = 0 ∨ (s.value n).natAbs = 1) from not_or.mpr ⟨hvx, fun hh => hl (key.mp hh).2⟩),
+          if_neg (show ¬ ((s.size n).natAbs = 1 ∧ bn.getD 0 0 = 1) from fun hh => hl hh.2)]
+        exact main
+    · rw [if_neg hn1]
+      simp only []
+      rw [if_neg (show ¬ (s.value x = 0 ∨ (s.value n).natAbs = 1) from not_or.mpr ⟨hvx, fun hh => hn1 (key.mp hh).1⟩),
+        if_neg (show ¬ ((s.size n).natAbs = 1 ∧ (0 : Nat) = 1) from fun hh => hn1 hh.1)]
+      exact main
+
+/- STATUS: every model of Mpir/Model/AliasPowm.lean has its theorem for every assignment of ids: `powm_ok` (all signs of the
+   exponent, DIVIDE_BY_ZERO included), `powm_ui_ok` (every el), `aorsmul_ok` / `addmul_ok` / `submul_ok`, `mpz_sqrt_ok`,
+   `mpz_lcm_ok`, `mpz_invert_ok`.  Hypotheses beyond `Inv` and the ids being variables:
+     * powm / powm_ui: `1 ≤ ALLOC (r)` (the exponent-0 exit stores PTR (r)[0] without a realloc), `m ≠ 0`, and
+       `|SIZ (m)| * 64 < 2^64` (as C08 `mpz_powm_spec`: needed by `Powm.powmMain_rp`, through which every limb of the result
+       vector is shown to be < 2^64); powm_ui: `el < 2^64`;
+     * mpz_invert: `Gcd.MpnGcdextContract` (the documented contract of mpn_gcdext, as C07 `mpz_gcdext_spec`) — used only to
+       bound the sizes of the gcd and the cofactor, which must fit the MAX (xsize, nsize) + 1 limbs of the locals;
+     * mpz_sqrt: `0 ≤ op`.
+   Not modelled: that the callees of mpz_lcm never reallocate its TMP-space local `g` (they do not: lcm.c:74 sizes it for
+   that; `mpz_gcd_ok` / `divexact_ok` do not export the pointer of their destination). -/
 
 /-! ### examples: b = -(2^70+5), m = 2^130+12345 (3 limbs), ids 0..3 = (spare, b, e, m) -/
 
 -- r = m in place: (-b)^13 mod m, the correction :272-277 reads m before r is written
-example : look (powm 3 1 2 3 (ofInts [0, -(2^70+5), 13, 2^130+12345])) 4 =
+example : lookP (powm 3 1 2 3 (ofInts [0, -(2^70+5), 13, 2^130+12345])) 4 =
     .ok [(0, 1, 0), (-(2^70+5), 2, 1), (13, 1, 2), ((-(2^70+5)) ^ 13 % (2^130+12345), 3, 3)] := by decide +kernel
 -- r = b (the block of b is too small: reallocated at `ret:` after the last read through bp)
-example : look (powm 1 1 2 3 (ofInts [0, -(2^70+5), 13, 2^130+12345])) 4 =
+example : lookP (powm 1 1 2 3 (ofInts [0, -(2^70+5), 13, 2^130+12345])) 4 =
     .ok [(0, 1, 0), ((-(2^70+5)) ^ 13 % (2^130+12345), 3, 5), (13, 1, 2), (2^130+12345, 3, 3)] := by decide +kernel
 -- r = e
-example : look (powm 2 1 2 3 (ofInts [0, -(2^70+5), 13, 2^130+12345])) 4 =
+example : lookP (powm 2 1 2 3 (ofInts [0, -(2^70+5), 13, 2^130+12345])) 4 =
     .ok [(0, 1, 0), (-(2^70+5), 2, 1), ((-(2^70+5)) ^ 13 % (2^130+12345), 3, 5), (2^130+12345, 3, 3)] := by decide +kernel
 -- r = b = e = m
-example : look (powm 1 1 1 1 (ofInts [0, 2^70+1])) 2 = .ok [(0, 1, 0), (0, 2, 1)] := by decide +kernel
+example : lookP (powm 1 1 1 1 (ofInts [0, 2^70+1])) 2 = .ok [(0, 1, 0), (0, 2, 1)] := by decide +kernel
 -- negative exponent (new_b = 3^-1 mod m in TMP space), r = m
-example : look (powm 3 1 2 3 (ofInts [0, 3, -5, 2^130+12345])) 4 =
+example : lookP (powm 3 1 2 3 (ofInts [0, 3, -5, 2^130+12345])) 4 =
     .ok [(0, 1, 0), (3, 1, 1), (-5, 1, 2), (817797951777070216718562842552068466225, 3, 3)] := by decide +kernel
 example : (817797951777070216718562842552068466225 * 3 ^ 5 : Int) % (2^130+12345) = 1 := by decide +kernel
 -- negative exponent, base not invertible: DIVIDE_BY_ZERO
-example : look (powm 0 1 2 3 (ofInts [0, 6, -5, 2^70*3])) 4 = .error "div0" := by decide +kernel
+example : lookP (powm 0 1 2 3 (ofInts [0, 6, -5, 2^70*3])) 4 = .error "div0" := by decide +kernel
 -- es = 0 with r = m: mp[0] is read before PTR (r)[0] = 1
-example : look (powm 3 1 2 3 (ofInts [0, 6, 0, 7])) 4 = .ok [(0, 1, 0), (6, 1, 1), (0, 1, 2), (1, 1, 3)] := by decide +kernel
-example : look (powm 3 1 2 3 (ofInts [0, 6, 0, -1])) 4 = .ok [(0, 1, 0), (6, 1, 1), (0, 1, 2), (0, 1, 3)] := by decide +kernel
+example : lookP (powm 3 1 2 3 (ofInts [0, 6, 0, 7])) 4 = .ok [(0, 1, 0), (6, 1, 1), (0, 1, 2), (1, 1, 3)] := by decide +kernel
+example : lookP (powm 3 1 2 3 (ofInts [0, 6, 0, -1])) 4 = .ok [(0, 1, 0), (6, 1, 1), (0, 1, 2), (0, 1, 3)] := by decide +kernel
 -- NEGATIVE, `readBeforeWrite := false`: the test reads the 1 just stored, SIZ (r) = 0 — result 0 instead of 1
-example : look (powmV { readBeforeWrite := false } 3 1 2 3 (ofInts [0, 6, 0, 7])) 4 =
+example : lookP (powmV { readBeforeWrite := false } 3 1 2 3 (ofInts [0, 6, 0, 7])) 4 =
     .ok [(0, 1, 0), (6, 1, 1), (0, 1, 2), (0, 1, 3)] := by decide +kernel
 -- NEGATIVE, `resultInTmp := false` with r = m: the correction subtracts from the clobbered modulus — result 0
-example : look (powmV { resultInTmp := false } 3 1 2 3 (ofInts [0, -(2^70+5), 13, 2^130+12345])) 4 =
+example : lookP (powmV { resultInTmp := false } 3 1 2 3 (ofInts [0, -(2^70+5), 13, 2^130+12345])) 4 =
     .ok [(0, 1, 0), (-(2^70+5), 2, 1), (13, 1, 2), (0, 3, 3)] := by decide +kernel
 -- mpz_powm_ui: el < 20 (r = m), el ≥ 20 (deflection to mpz_powm through a local mpz_t, r = m), el = 0 with r = m = 1
-example : look (powm_ui 3 1 13 3 (ofInts [0, -(2^70+5), 13, 2^130+12345])) 4 =
+example : lookP (powm_ui 3 1 13 3 (ofInts [0, -(2^70+5), 13, 2^130+12345])) 4 =
     .ok [(0, 1, 0), (-(2^70+5), 2, 1), (13, 1, 2), ((-(2^70+5)) ^ 13 % (2^130+12345), 3, 3)] := by decide +kernel
-example : look (powm_ui 3 1 25 3 (ofInts [0, -(2^70+5), 13, 2^130+12345])) 4 =
+example : lookP (powm_ui 3 1 25 3 (ofInts [0, -(2^70+5), 13, 2^130+12345])) 4 =
     .ok [(0, 1, 0), (-(2^70+5), 2, 1), (13, 1, 2), ((-(2^70+5)) ^ 25 % (2^130+12345), 3, 3)] := by decide +kernel
-example : look (powm_ui 3 1 0 3 (ofInts [0, 5, 13, 1])) 4 = .ok [(0, 1, 0), (5, 1, 1), (13, 1, 2), (0, 1, 3)] := by decide +kernel
-example : look (powm_uiV { readBeforeWrite := false } 3 1 0 3 (ofInts [0, 5, 13, 7])) 4 =
+example : lookP (powm_ui 3 1 0 3 (ofInts [0, 5, 13, 1])) 4 = .ok [(0, 1, 0), (5, 1, 1), (13, 1, 2), (0, 1, 3)] := by decide +kernel
+example : lookP (powm_uiV { readBeforeWrite := false } 3 1 0 3 (ofInts [0, 5, 13, 7])) 4 =
     .ok [(0, 1, 0), (5, 1, 1), (13, 1, 2), (0, 1, 3)] := by decide +kernel
 -- mpz_addmul / mpz_submul: w = x (block too small: reallocated first, PTR (x) fetched afterwards), w = x = y, one-limb y
-example : look (addmul 1 1 2 (ofInts [2^100, 2^70+1, -(2^65+7)])) 3 =
+example : lookP (addmul 1 1 2 (ofInts [2^100, 2^70+1, -(2^65+7)])) 3 =
     .ok [(2^100, 2, 0), ((2^70+1) + (2^70+1) * -(2^65+7), 5, 3), (-(2^65+7), 2, 2)] := by decide +kernel
-example : look (submul 1 1 1 (ofInts [2^100, 2^70+1, -(2^65+7)])) 3 =
+example : lookP (submul 1 1 1 (ofInts [2^100, 2^70+1, -(2^65+7)])) 3 =
     .ok [(2^100, 2, 0), ((2^70+1) - (2^70+1) * (2^70+1), 5, 3), (-(2^65+7), 2, 2)] := by decide +kernel
-example : look (submul 1 1 2 (ofInts [2^100, 2^70+1, -7])) 3 =
+example : lookP (submul 1 1 2 (ofInts [2^100, 2^70+1, -7])) 3 =
     .ok [(2^100, 2, 0), ((2^70+1) - (2^70+1) * -7, 3, 3), (-7, 1, 2)] := by decide +kernel
-example : look (addmul 0 1 2 (ofInts [2^100, 2^70+1, -(2^65+7)])) 3 =
+example : lookP (addmul 0 1 2 (ofInts [2^100, 2^70+1, -(2^65+7)])) 3 =
     .ok [(2^100 + (2^70+1) * -(2^65+7), 5, 3), (2^70+1, 2, 1), (-(2^65+7), 2, 2)] := by decide +kernel
 -- NEGATIVE, `reallocThenPtr := false`, w = x: PTR (x) fetched before MPZ_REALLOC (w) is stale
-example : look (aorsmulV { reallocThenPtr := false } false 1 1 2 (ofInts [2^100, 2^70+1, -(2^65+7)])) 3 =
+example : lookP (aorsmulV { reallocThenPtr := false } false 1 1 2 (ofInts [2^100, 2^70+1, -(2^65+7)])) 3 =
     .error "ub:read of a freed block" := by decide +kernel
 -- NEGATIVE, `productInTmp := false`: mpn_mul (wp, PTR (x), …) with w = x
-example : look (aorsmulV { productInTmp := false } false 1 1 2 (ofInts [2^100, 2^70+1, -(2^65+7)])) 3 =
+example : lookP (aorsmulV { productInTmp := false } false 1 1 2 (ofInts [2^100, 2^70+1, -(2^65+7)])) 3 =
     .error "ub:mpn_mul product overlaps a factor" := by decide +kernel
+
+-- mpz_sqrt: root = op in place (copy of op to TMP space), root too small (new block), op = 0
+example : lookP (mpz_sqrt 1 1 (ofInts [0, 2^200+12345])) 2 = .ok [(0, 1, 0), (2^100, 4, 1)] := by decide +kernel
+example : lookP (mpz_sqrt 0 1 (ofInts [0, 2^200+12345])) 2 = .ok [(2^100, 2, 2), (2^200+12345, 4, 1)] := by decide +kernel
+example : lookP (mpz_sqrt 1 1 (ofInts [0, -5])) 2 = .error "sqrtneg" := by decide +kernel
+-- NEGATIVE, `copyOp := false`: mpn_sqrtrem (root_ptr, NULL, op_ptr, n) with root_ptr == op_ptr
+example : lookP (mpz_sqrtV { copyOp := false } 1 1 (ofInts [0, 2^200+12345])) 2 =
+    .error "ub:mpn_sqrtrem operands overlap" := by decide +kernel
+-- mpz_lcm: general case (local g) with r = u, r = v, r = u = v; one-limb arm with r = v (the limb of v read after the
+-- realloc of r) and the swapped arm
+example : lookP (mpz_lcm 1 1 2 (ofInts [0, 2^70*6, -(2^65*15)])) 3 =
+    .ok [(0, 1, 0), (2^70*30, 3, 5), (-(2^65*15), 2, 2)] := by decide +kernel
+example : lookP (mpz_lcm 2 1 2 (ofInts [0, 2^70*6, -(2^65*15)])) 3 =
+    .ok [(0, 1, 0), (2^70*6, 2, 1), (2^70*30, 3, 5)] := by decide +kernel
+example : lookP (mpz_lcm 1 1 1 (ofInts [0, -(2^70*6), 7])) 3 = .ok [(0, 1, 0), (2^70*6, 3, 5), (7, 1, 2)] := by decide +kernel
+example : lookP (mpz_lcm 2 1 2 (ofInts [0, 2^70*6, -15])) 3 =
+    .ok [(0, 1, 0), (2^70*6, 2, 1), (2^70*30, 3, 3)] := by decide +kernel
+example : lookP (mpz_lcm 1 2 1 (ofInts [0, 2^70*6, -15])) 3 =
+    .ok [(0, 1, 0), (2^70*30, 3, 3), (-15, 1, 2)] := by decide +kernel
+-- mpz_invert: inverse = x, inverse = n (negative modulus), not invertible (nothing changes), modulus 1
+example : (mpz_invert 1 1 2 (ofInts [0, 2^70+3, -(2^130+12345)])).map (fun r => (r.1, r.2.view 3)) =
+    .ok (true, [(0, 1, 0), (757916649724184222326937905833495657530, 4, 5), (-(2^130+12345), 3, 2)]) := by decide +kernel
+example : (mpz_invert 2 1 2 (ofInts [0, 2^70+3, -(2^130+12345)])).map (fun r => (r.1, r.2.view 3)) =
+    .ok (true, [(0, 1, 0), (2^70+3, 2, 1), (757916649724184222326937905833495657530, 4, 5)]) := by decide +kernel
+example : (757916649724184222326937905833495657530 * (2^70+3) : Int) % (2^130+12345) = 1 := by decide +kernel
+example : (mpz_invert 2 1 2 (ofInts [0, 6, 2^70*3])).map (fun r => (r.1, r.2.view 3)) =
+    .ok (false, [(0, 1, 0), (6, 1, 1), (2^70*3, 2, 2)]) := by decide +kernel
+example : (mpz_invert 1 1 2 (ofInts [0, 6, 1])).map (fun r => (r.1, r.2.view 3)) =
+    .ok (false, [(0, 1, 0), (6, 1, 1), (1, 1, 2)]) := by decide +kernel
 
 end Mpir.AliasMem
